@@ -8,6 +8,7 @@ pub mod spaces;
 pub mod campaign;
 pub mod c06gen;
 pub mod replay;
+pub mod s5;
 pub mod irtext;
 pub mod matchgen;
 pub mod mutgen;
